@@ -342,8 +342,11 @@ def sample_cases(cases, tier, rng):
     key = lambda c: (c["ct"], c["expect"]["v"]["cls"], last_write(c)["k"], last_write(c)["path"], last_write(c)["form"])
     hkey = lambda c: (c["ct"], c["expect"]["v"]["cls"], last_write(c)["path"], last_write(c)["k"])
     if tier == "thorough":
-        return rest + _spread(huge, hkey, 120, rng)
-    return _spread(rest, key, 2600, rng) + _spread(huge, hkey, 16, rng)
+        # everything below 100 KB, and a spread of the 100 KB ("pages") and 3 MiB ("huge") behaviours
+        pages = [c for c in rest if any(h["detail"].get("len", 0) >= 100000 or (h.get("predetail") or {}).get("len", 0) >= 100000 for h in c["hist"])]
+        small = [c for c in rest if c not in pages] if len(pages) < 50 else [c for c in rest if id(c) not in {id(x) for x in pages}]
+        return small + _spread(pages, key, 1500, rng) + _spread(huge, hkey, 100, rng)
+    return _spread(rest, key, 2200, rng) + _spread(huge, hkey, 12, rng)
 
 
 def batches(cases, limit=120 * 1024 * 1024):
@@ -399,7 +402,12 @@ def run(chk):
     vlib.build_harness(); chk.mark("build")
     for m in check_constants():
         chk.stale.append(m)
-    gen = vlib.tlc_emit("MC_Values.tla", os.path.join(vlib.SPEC, "Gen_Values.cfg"), timeout=1500, workers=6)
+    cfg = os.path.join(vlib.SPEC, "Gen_Values.cfg")
+    if not thorough:
+        # quick tier: four of the six table shapes (both witness orders, column first / last, neighbours set / NULL, no key)
+        cfg = vlib.scratch() + "/Gen_Values_quick.cfg"
+        open(cfg, "w").write(open(os.path.join(vlib.SPEC, "Gen_Values.cfg")).read().replace("Shapes <- AllShapes", "Shapes <- QuickShapes"))
+    gen = vlib.tlc_emit("MC_Values.tla", cfg, timeout=1500, workers=6)
     if gen["violated"]:
         raise vlib.ToolError("Values.tla violates its own invariants: %s" % gen["violated"])
     cases = gen["emitted"]
